@@ -223,3 +223,182 @@ def run_builtins(prop, S, outdir, rebaseline=False):
             res = Result(ob, "F", "verified", "", 0, meta)
     info = {"unit": "engine_f_builtins", "engine": "frame audit (vx inventory)", "cmd": f"{len(cur)} register_filter/register_test/register_function sites of Tera::register_builtin_* vs contracts/builtin_table.json", "wall_s": 0.0, "smt_s": 0.0, "trusted": [], "functions": ["tera::Tera::register_builtin_filters", "tera::Tera::register_builtin_tests", "tera::Tera::register_builtin_functions"], "assumptions": ["engine F (built-ins): the audited table pairs each template-level name with the function item of the same name (`str` -> as_str, `escape_html` -> escape, tests `x` -> is_x), judged by reading; added names are not judged"]}
     return [res], [info]
+
+
+MAPITER_AUDIT = os.path.join(VERIF, "contracts", "map_iter_points.json")
+MAPITER_FILES = ["tera/src/value/mod.rs", "tera/src/value/key.rs", "tera/src/value/ser.rs", "tera/src/value/de.rs", "tera/src/filters.rs", "tera/src/functions.rs", "tera/src/tests.rs", "tera/src/vm/for_loop.rs", "tera/src/vm/interpreter.rs", "tera/src/vm/state.rs", "tera/src/context.rs", "tera/src/args.rs", "tera/src/components.rs"]
+MAPITER_METHODS = ("iter", "keys", "values", "into_iter", "iter_mut", "drain", "into_keys", "into_values", "values_mut")
+SORT_UNDER_CFG = re.compile(r'cfg!\(not\(feature="preserve_order"\)\)\{[\w.]+\.sort')
+
+
+def map_iter_inventory(S):
+    """{fn path: {"sites": [receiver.method, ...], "sorted": bool}} for every non-test function of the value / filter /
+    VM sources that iterates a `Map` (the engine's HashMap): receivers are the names the function binds to a map
+    (a parameter typed Map, a `ValueInner::Map(x)` pattern, the closure parameter after `.as_map().map(|m| ..)`)"""
+    inv = {}
+    for label in MAPITER_FILES:
+        try:
+            src = S(label)
+        except Exception:  # noqa: BLE001
+            continue
+        for f in src.items:
+            if f["kind"] != "fn" or "::tests::" in f["path"] or f["path"].startswith("snapshot_tests"):
+                continue
+            t = src.text(*f["range"])
+            names = set(re.findall(r"(\w+)\s*:\s*&?\s*(?:mut\s+)?(?:Arc<\s*)?Map\b", t))
+            names |= set(re.findall(r"ValueInner::Map\(\s*(?:ref\s+)?(\w+)\s*\)", t))
+            names |= set(re.findall(r"as_map\(\)\s*\.map\(\s*\|(\w+)\|", t))
+            names -= {"_"}
+            if not names:
+                continue
+            sites = []
+            for m in f["nodes"]:
+                if m["kind"] == "methodcall" and m["method"] in MAPITER_METHODS:
+                    recv = re.sub(r"\s+", "", src.text(*m["receiver"]))
+                    base = re.sub(r"^[&*(]+|\)+$", "", recv)
+                    if base in names or re.fullmatch(r"(?:\*|&)*(%s)(?:\.as_ref\(\)|\.clone\(\))?" % "|".join(map(re.escape, names)), recv):
+                        sites.append(f"{base}.{m['method']}")
+            if sites:
+                flat = re.sub(r"\s+", "", t)
+                inv[f["path"]] = {"sites": sorted(sites), "sorted": bool(SORT_UNDER_CFG.search(flat))}
+    return inv
+
+
+def run_maporder(prop, S, outdir, rebaseline=False):
+    """C18 (rendering is pure): a HashMap's iteration order is not a function of its content, so every place
+    where the engine walks a `Map` either sorts what it collected (unless preserve_order) or was audited as
+    order-free.  false = a function audited as `sorted` walks a map and no longer sorts; a changed set of
+    walking sites elsewhere = frame changed, re-audit (undecided)."""
+    from driver import Result
+
+    if prop not in ("C18", "ALL"):
+        return [], []
+    ob = "frame/maps/iteration_order"
+    meta = {"unit": "engine_f", "props": ["C18"], "what": "every function that walks a Map sorts the entries (unless preserve_order) or is audited as order-free"}
+    try:
+        cur = map_iter_inventory(S)
+    except Exception as e:  # noqa: BLE001
+        return [Result(ob, "F", "undecided", f"inventory failed: {e}", 0, meta)], []
+    if rebaseline or not os.path.exists(MAPITER_AUDIT):
+        old = json.load(open(MAPITER_AUDIT)) if os.path.exists(MAPITER_AUDIT) else {}
+        new = {k: {"sites": v["sites"], "class": "sorted" if v["sorted"] else old.get(k, {}).get("class", "UNAUDITED"), "why": old.get(k, {}).get("why", "")} for k, v in cur.items()}
+        with open(MAPITER_AUDIT, "w") as f:
+            json.dump(new, f, indent=1, sort_keys=True)
+    audited = json.load(open(MAPITER_AUDIT))
+    if len(cur) < 3:
+        res = Result(ob, "F", "undecided", f"vacuity guard: only {len(cur)} functions walking a Map found", 0, meta)
+    else:
+        unsorted = [k for k, a in sorted(audited.items()) if a["class"] == "sorted" and k in cur and not cur[k]["sorted"]]
+        changed = [k for k in sorted(set(cur) | set(audited)) if (k not in audited) or (k in cur and cur[k]["sites"] != audited[k]["sites"]) or (k not in cur and audited[k]["class"] == "sorted")]
+        unaud = [k for k, a in audited.items() if a["class"] not in ("sorted", "order-free")]
+        if unsorted:
+            res = Result(ob, "F", "false", "walks a Map in hash order (the sort under `cfg!(not(feature = \"preserve_order\"))` is gone): " + ", ".join(unsorted), 0, dict(meta, fn=unsorted[0]))
+        elif changed or unaud:
+            res = Result(ob, "F", "undecided", "frame changed, re-audit: the Map-walking sites differ from contracts/map_iter_points.json in " + ", ".join(changed + unaud), 0, meta)
+        else:
+            res = Result(ob, "F", "verified", "", 0, meta)
+    info = {"unit": "engine_f_maporder", "engine": "frame audit (vx inventory)", "cmd": f"{sum(len(v['sites']) for v in cur.values())} Map-walking sites in {len(cur)} functions vs contracts/map_iter_points.json", "wall_s": 0.0, "smt_s": 0.0, "trusted": [], "functions": sorted(cur), "assumptions": ["engine F (map order): receivers are recognised by name (a parameter typed Map, a `ValueInner::Map(x)` binding, `.as_map().map(|m| ..)`); a walk through another alias is not seen", "engine F (map order): functions classed `order-free` were judged by reading (the walk feeds a sort, a set, a commutative fold, or another map)", "engine F (map order): with the `preserve_order` feature the Map is an IndexMap whose order is the insertion order - a function of how the value was built, not of a hash state; that configuration is not examined"]}
+    return [res], [info]
+
+
+ERRKIND_AUDIT = os.path.join(VERIF, "contracts", "parser_error_points.json")
+SYNTAX_CTORS = ("syntax_error",)
+
+
+def _norm(t):
+    return re.sub(r"\s+", "", t)
+
+
+def errkind_inventory(S):
+    """Inductive check of "every error that leaves the parser is a SyntaxError" (Template::new answers anything
+    else with `unreachable!`).  For every function of parsing::parser and parsing::lexer in the expanded source:
+      bad      : `Error::<ctor>(` with a constructor other than syntax_error, or `ErrorKind::<K>` other than SyntaxError
+      foreign  : `E?` where E is neither a call of a parser/lexer function (inductive hypothesis), nor a block made
+                 of those and of syntax errors (expect_token!), nor converted by `.map_err(|_| Error::syntax_error(..))`
+                 -> (callee text, the Error constructors of the callee if it can be found in the crate)
+      values   : `Err(X)` / error-typed expressions whose X is none of: a syntax constructor, a parser method returning
+                 `Error`, a variable bound by an `Err(x)` pattern over a lexer item"""
+    src = S("expanded")
+    fns = [f for f in src.items if f["kind"] == "fn" and (f["path"].startswith("parsing::parser::") or f["path"].startswith("parsing::lexer::")) and "::tests::" not in f["path"]]
+    own = {f["path"].split("::")[-1] for f in fns}
+    by_name = {}
+    for f in src.items:
+        if f["kind"] == "fn":
+            by_name.setdefault(f["path"].split("::")[-1], []).append(f)
+    bad, foreign, values = [], [], []
+    for f in fns:
+        t = src.text(*f["range"])
+        short = f["path"].split("parsing::")[-1]
+        for m in re.finditer(r"\bError::(\w+)\s*\(", t):
+            if m.group(1) not in SYNTAX_CTORS + ("new",):
+                bad.append(f"{short}: Error::{m.group(1)}")
+        for m in re.finditer(r"\bErrorKind::(\w+)", t):
+            if m.group(1) != "SyntaxError":
+                bad.append(f"{short}: ErrorKind::{m.group(1)}")
+        for n in f["nodes"]:
+            if n["kind"] != "try":
+                continue
+            e = _norm(src.text(*n["inner"]))
+            if re.match(r"self\.(\w+)\(", e) and re.match(r"self\.(\w+)\(", e).group(1) in own and e.endswith(")") and ".map(" not in e:
+                continue
+            if re.search(r"\.(map_err|ok_or_else|or_else)\(\|\w*\|Error::syntax_error\(", e) or re.search(r"\.ok_or_else\(\|\|self\.\w+\(", e):
+                continue
+            if e.startswith("{") or e.startswith("match"):
+                # a block (expect_token! and friends): its own `?` sites are visited separately; its Err values below
+                continue
+            cal = re.match(r"((?:\w+::)*\w+)\(", e)
+            name = cal.group(1) if cal else e[:60]
+            last = name.split("::")[-1]
+            if last in own and "::" not in name:
+                continue
+            ctors = None
+            cands = [g for g in by_name.get(last, []) if "::" not in name or name.split("::")[-2] in g["path"]]
+            if len(cands) == 1:
+                ctors = sorted(set(re.findall(r"\bError::(\w+)\s*\(", src.text(*cands[0]["range"]))))
+            foreign.append({"fn": short, "callee": name, "callee_ctors": ctors})
+        for m in re.finditer(r"\bErr\s*\(", t):
+            # the argument up to the matching parenthesis
+            i, d = m.end(), 1
+            while i < len(t) and d:
+                d += {"(": 1, ")": -1}.get(t[i], 0)
+                i += 1
+            a = _norm(t[m.end():i - 1])
+            if a.startswith("Error::syntax_error(") or a == "_" or re.fullmatch(r"\w+", a) or a.startswith("Error{kind:"):
+                # `_` / a variable in a PATTERN, or an error re-raised from an `Err(x)` pattern (judged with the scrutinee below)
+                continue
+            mm = re.match(r"self\.(\w+)\(", a)
+            if mm and mm.group(1) in own:
+                continue
+            values.append(f"{short}: Err({a[:60]})")
+    return {"bad": sorted(set(bad)), "foreign": foreign, "values": sorted(set(values)), "functions": len(fns)}
+
+
+def run_errkind(prop, S, outdir, rebaseline=False):
+    from driver import Result
+
+    if prop not in ("C06", "ALL"):
+        return [], []
+    ob = "frame/parser/errors_are_syntax_errors"
+    meta = {"unit": "engine_f", "props": ["C06"], "what": "every error that leaves the parser is a SyntaxError, so the `unreachable!` of Template::new stays unreachable"}
+    try:
+        cur = errkind_inventory(S)
+    except Exception as e:  # noqa: BLE001
+        return [Result(ob, "F", "undecided", f"inventory failed: {e}", 0, meta)], []
+    if rebaseline or not os.path.exists(ERRKIND_AUDIT):
+        with open(ERRKIND_AUDIT, "w") as f:
+            json.dump({"foreign": cur["foreign"], "values": cur["values"]}, f, indent=1, sort_keys=True)
+    audited = json.load(open(ERRKIND_AUDIT))
+    escaping = [x for x in cur["foreign"] if x["callee_ctors"] and any(c not in SYNTAX_CTORS + ("new",) for c in x["callee_ctors"]) and x not in audited["foreign"]]
+    if cur["functions"] < 20:
+        res = Result(ob, "F", "undecided", f"vacuity guard: only {cur['functions']} parser/lexer functions found", 0, meta)
+    elif cur["bad"]:
+        res = Result(ob, "F", "false", "the parser builds an error that is not a SyntaxError (Template::new answers it with unreachable!): " + ", ".join(cur["bad"]), 0, dict(meta, fn="parsing::" + cur["bad"][0].split(":")[0]))
+    elif escaping:
+        res = Result(ob, "F", "false", "an error of another kind leaves the parser unconverted (Template::new answers it with unreachable!): " + ", ".join(f"`{x['callee']}(..)?` in {x['fn']} (the callee builds Error::{'/'.join(x['callee_ctors'])})" for x in escaping), 0, dict(meta, fn="parsing::" + escaping[0]["fn"]))
+    elif cur["foreign"] != audited["foreign"] or cur["values"] != audited["values"]:
+        new = [x for x in cur["foreign"] if x not in audited["foreign"]] + [x for x in cur["values"] if x not in audited["values"]]
+        res = Result(ob, "F", "undecided", "frame changed, re-audit: error sources of the parser that are not recognisably syntax errors: " + json.dumps(new)[:300], 0, meta)
+    else:
+        res = Result(ob, "F", "verified", "", 0, meta)
+    info = {"unit": "engine_f_errkind", "engine": "frame audit (vx inventory)", "cmd": f"error constructors, `?` operands and Err(..) values of {cur['functions']} parser/lexer functions (expanded source) vs contracts/parser_error_points.json", "wall_s": 0.0, "smt_s": 0.0, "trusted": [], "functions": ["parsing::parser::Parser::*", "parsing::lexer::*", "template::Template::new (the unreachable! this keeps unreachable)"], "assumptions": ["engine F (error kind): an induction over the parser's functions by syntactic classes (calls of parser/lexer functions carry the hypothesis; expect_token! blocks; `.map_err(|e| Error::syntax_error(..))`); error values re-raised from an `Err(e)` pattern are taken to come from the lexer or the parser itself", "engine F (error kind): `Error::new(ErrorKind::SyntaxError(..))` and `Error::syntax_error(..)` are the syntax constructors; what they build is not examined"]}
+    return [res], [info]
